@@ -69,9 +69,11 @@ json.dump({"property": "C01", "rule": "hang", "signature": "hang", "message": "l
 PY
     "$ROOT/harness/target/release/verif" replay "$R" --property C01 >/dev/null 2>&1; RR=$?
     if [ $RR -eq 3 ] || [ $RR -eq 1 ]; then echo "  rule hang: libFuzzer timeout/oom artifact reproduced by the stable harness"; echo "VIOLATION property=C01 replay=$R"; RC=1; else echo "INCONCLUSIVE: libFuzzer timeout/oom artifact $TO does not reproduce" >&2; RC=2; fi
-  elif grep -qE "AddressSanitizer|deadly signal" "$ROOT"/logs/fuzz-$ID-*.log && [ "$ID" = "C01" ]; then
-    ART=$(ls -t "$FUZZ"/artifacts/*/crash-* 2>/dev/null | head -1)
-    echo "  sanitizer / signal crash inside the lexer (artifact $ART)"; echo "VIOLATION property=C01 replay=$ART"; RC=1
+  elif [ "$ID" = "C01" ] && grep -qE "ERROR: AddressSanitizer: [a-z-]+|ERROR: libFuzzer: deadly signal" "$ROOT"/logs/fuzz-$ID-*.log && [ -n "$(find "$FUZZ"/artifacts -name 'crash-*' -newer "$STAMP" 2>/dev/null | head -1)" ]; then
+    # a memory error or signal inside the lexer itself (not one of our reports): undefined behaviour is a totality failure
+    ART=$(find "$FUZZ"/artifacts -name 'crash-*' -newer "$STAMP" | head -1)
+    grep -E "ERROR: AddressSanitizer|SUMMARY:" "$ROOT"/logs/fuzz-$ID-*.log | head -2
+    echo "  rule memory-error: sanitizer / signal crash inside the lexer"; echo "VIOLATION property=C01 replay=$ART"; RC=1
   else
     echo "INCONCLUSIVE: fuzz target stopped for a reason other than a property violation (timeout/OOM/other), see logs/fuzz-$ID-*.log" >&2
     RC=2
